@@ -35,7 +35,7 @@ CHECKS = {
          "On the implementation every API call's executed control-flow edges are checked against a linear budget in input+output bytes (9x head-room over the measured maximum), with a watchdog, "
          "on malformed, shipped and pathological inputs; that found the cyclic-CHM hang repaired by f3ee904."
          " Since then proved (C04Loops): with the fuel the entry points pass, the out-of-fuel outcome is unreachable for every input in the LZSS/SZDD/KWAJ, OAB, CHM (headers, fast_find, section 0), KWAJ LZH, MSZIP and LZX loops and the CAB stored-folder loop."
-         " Quantum (C04Qtm): no hang over any finite source for every state a session begun by qtmd_init reaches and every request below 2^32 - 2^21; the bound is sharp (the model and qtmd.c both spin on a 2^32-byte request, observation O3; not reachable through cabd)."),
+         " Quantum (C04Qtm): no hang over any finite source for every state a session begun by qtmd_init reaches and every request below 2^32 - 2^21; the bound is sharp (the model and qtmd.c both spin on a 2^32-byte request, observation O3; not reachable through cabd). cabd_extract as a whole (C04CabExtract): fuel-invariant skeleton; stored+MSZIP sessions never run out of fuel, on one named undischarged hypothesis (ZipSticky_partial)."),
    note=PROOF_NOTE + " Wall-clock time is not covered; the budget constants are calibrated, not derived.", technique="Lean 4 termination measures + instrumented edge budget and watchdog on the implementation"),
  "C09": dict(category="proof",
    text=("Theorems on effect models of the SZDD, KWAJ and OAB decompressors over an instrumented mspack_system (ledger of live allocations and handles, fault plan, misuse monitor): for every client program (create; any list of decompress / open + extracts + close; destroy), every file content and every fault plan (any set of failing alloc/open/read/write/seek calls) the ledger after the program equals the ledger before it and no misuse is recorded "
@@ -54,7 +54,7 @@ CHECKS = {
    text=("The models take the allocator's fill byte as a parameter wherever the C reads memory it did not write. Theorems: the MSZIP decoder state and hence extraction from stored and MSZIP CAB folders "
          "(any input) do not depend on it. Quantum/LZX/LZH are validated: every scenario under four fill bytes must give identical results, MemorySanitizer with poisoned allocations must stay silent, "
          "and model and implementation must agree per fill byte. Found and repaired: f814fba, 97e13b8, cc98207, b0cacf5."
-         " Extended to the KWAJ LZH, LZX and Quantum decoders: for every source and every sequence of calls the trace of statuses and written bytes is the same for any two fill bytes (C11Decoders)."),
+         " Extended to the KWAJ LZH, LZX and Quantum decoders: for every source and every sequence of calls the trace of statuses and written bytes is the same for any two fill bytes (C11Decoders). END TO END for CAB (C11CabExtract): any session of extract() calls from a fresh decompressor shows the same statuses and bytes under any two fill bytes - all four methods, no side condition."),
    note=PROOF_NOTE, technique="Lean 4 (fill-independence of model states) + multi-fill differential runs + MemorySanitizer"),
  "C13": dict(category="proof",
    text=("Theorems on the heap model of cabd_merge: every refusal leaves the heap exactly as it was, and NULL, identical, already-joined, circular and mismatched-split-folder joins are refused with the documented codes. "
@@ -120,7 +120,7 @@ CHECKS = {
          "delivers is delivered identically under any combination of ignore-checksum / ignore-blocksize. The lift through feeder, decoders and extract is checked by "
          "model/implementation agreement and by the oracle: identical listing and bytes under all four SALVAGE x FIXMSZIP combinations for strict-valid cabinets; for the two listed "
          "defect classes salvage lists exactly the remaining members / extracts the original bytes."
-         " For stored folders the lift is proved: C18_stored_params_irrelevant - any call sequence gives identical results under any two parameter records."),
+         " For stored folders the lift is proved: C18_stored_params_irrelevant - any call sequence gives identical results under any two parameter records. Feeder and MSZIP decoder (C18Decoders): an OK strict run is reproduced byte for byte with SALVAGE/FIXMSZIP set."),
    note=PROOF_NOTE, technique="Lean 4 theorems (monotonicity of header and block readers in the relaxation flags, by induction) + differential runs over the four parameter combinations"),
  "C14": dict(category="proof",
    text=("Theorems on the model of cabd_find: the result is independent of the search-buffer size (every n>=1), the restart logic always advances "
@@ -140,6 +140,6 @@ CHECKS = {
          "or of the stored checksum makes cabd_sys_read_block's test fail (or turns the stored checksum into 0 = 'no checksum', data untouched); "
          "crc32_table proved equal to the reflected 0xEDB88320 table. Tied to the code by prim-level and extract-level differential runs on every byte position of small cabinets; "
          "OAB part is partial by arithmetic necessity (CRC collisions)."
-         " Lifted to the API for stored folders: C12_stored_extract_refused / C12_extract_payload_byte / C12_extract_usize_byte - intact blocks, then a block failing the reader's test: strict-mode extract() of any member returns OK with exactly the original bytes or an error."),
+         " Lifted to the API for stored folders: C12_stored_extract_refused / C12_extract_payload_byte / C12_extract_usize_byte - intact blocks, then a block failing the reader's test: strict-mode extract() of any member returns OK with exactly the original bytes or an error. Every compression type (C12Decoders): a block error recorded by the feeder during extract() is never reported as OK, in any mode."),
    note=PROOF_NOTE, technique="Lean 4 theorems (XOR-linearity + injectivity of the word packers, functional induction) + differential model/implementation runs on exhaustively corrupted blocks"),
 }
